@@ -10,18 +10,26 @@ PROP = "C04"
 GEN = ["Handlers"]
 VO = ["Properties/C04.vo", "Properties/C03.vo", "Properties/C15.vo", "Extract/D_Client.vo", "Extract/D_Server.vo"]
 MODULE = "Properties.C04"
-THEOREMS = ["c04_set_then_get_partial", "c04_other_keys_untouched", "c04_found_own", "c04_reply_roundtrip"]
+THEOREMS = ["c04_set_then_get_partial", "c04_other_keys_untouched", "c04_found_own", "c04_reply_roundtrip", "c04_server_invariant",
+            "c04_e2e_get", "c04_e2e_gets", "c04_e2e_get_many", "c04_e2e_set_then_get", "c04_e2e_set_keeps_other", "c04_src_handlers"]
 DRIVER = "D_Client"
-TECHNIQUE = ("Coq proof (partial): on the specification server a stored item is returned with exactly its bytes and flags and no "
-             "store touches another key; the length-framed retrieval reply is read back exactly by a strict reader for any data; "
-             "with C02 (framing on the way in), C03 (exact-length read) and C15 (serializer round trip) this covers each leg; "
-             "the legs' composition in the client is checked by differential and round-trip runs")
+TECHNIQUE = ("Coq proof (partial): end to end on the Client model with the specification server as peer - get/gets/get_many return "
+             "exactly the live items under the caller's keys, set followed by get returns the stored value for any bytes, a set leaves "
+             "other keys' reads unchanged, nothing is left unread; plus the server-side and reply-framing theorems; pickled values "
+             "(C15) and reconnecting calls are covered by differential and round-trip runs against the real classes")
 LEVEL_TEXT = ("c04_set_then_get_partial, c04_other_keys_untouched, c04_found_own: for every server state, key, flags, expiry and data "
               "a set followed by a get before expiry returns exactly those bytes and flags under that key, stores never change other "
               "keys, and a retrieval lists each present requested key with its own item; c04_reply_roundtrip: for ANY data bytes "
               "(CR LF, END, VALUE lines, any size) and any number of items the strict reply reader recovers exactly the items. "
-              "PARTIAL: that the Client's fetch loop IS this strict reader, and the key mapping back to the caller's key object, "
-              "are checked (fetch loop vs Spec/Reply.v on generated replies; round trips over key/value/serde/prefix/"
+              "c04_e2e_get/gets/get_many: on a connected Client model with nothing pending, a fault-free transport (any recv chunking) "
+              "and Spec/Server as the peer, for every server state, configuration (prefix, encoding, serializer) and key, the call "
+              "returns the deserialised live item under the caller's own key object (the default / an absent entry otherwise), the "
+              "server state is unchanged and nothing is left unread; for get_many with any number of keys whose wire keys differ. "
+              "c04_e2e_set_then_get: set then get returns the value stored - for bytes/str/int with the serializer, the stored bytes "
+              "without one - whatever bytes it contains; c04_e2e_set_keeps_other: a set does not change what a get of another key "
+              "returns. c04_server_invariant: the side condition (non-negative flags and cas versions) holds in every reachable server "
+              "state. PARTIAL: values that go through pickle/compression (oracles; C15's theorems), explicit flags, calls that "
+              "reconnect first and HashClient/PooledClient stacks are checked (round trips over key/value/serde/prefix/"
               "segmentation/collection-type grids), not proved end to end.")
 LEVEL_NOTE = ("Trusted: Coq kernel; Spec/Server.v, Spec/Reply.v as readings of protocol.txt (compared with harness/refserver.py); the "
               "hand model's correspondence with base.py; pickle and zlib/lz4 themselves. No axioms.")
